@@ -10,7 +10,8 @@ PROP = {'counts': {'quick': 100, 'thorough': 5000},
          'change the data of a writable node?) with the generated fact table gen/Api.v; oracle = reference '
          'map that only applied entries may change on a replica + read-only error class for every mutation '
          'attempt + node info against configuration and behaviour; non-trivial = replica case with >= 3 '
-         'refused mutation attempts of >= 3 kinds, >= 2 applied entries and >= 1 read; distinct by case text',
+         'refused mutation attempts of >= 3 kinds, >= 2 applied entries and >= 1 read; distinct by case text'
+         ' Added later: the accessor result taken before the node became a replica (l begin .. early), the race scenario with replicated deletes and mixed entry types, gen/ApplierFacts.v (every interface the applier asserts on its engine is satisfied by EngineFacade, decided by go/types).',
  'assumptions': ["the replica's network loop is left dialling a dead address (DialTimeout 20 ms); replicated "
                  'entries are handed to replication.EngineApplier, the applier type the manager builds',
                  'programs are sequential: a call that would wait for the transaction lock is skipped by '
